@@ -729,6 +729,15 @@ def allclose(a, b, rtol=1e-05, atol=1e-08, **k):
     return all_(d <= bound)
 
 
+def isclose(a, b, rtol=1e-05, atol=1e-08, **k):
+    if not has_sym([a, b]):
+        return _np.isclose(a, b, rtol=rtol, atol=atol)
+    if isinstance(a, SA) or isinstance(b, SA):
+        return absolute(asarray(a) - asarray(b)) <= atol + rtol * absolute(asarray(b))
+    a, b = Sc.of(a), Sc.of(b)
+    return abs(a - b) <= atol + rtol * abs(b)
+
+
 def array_equal(a, b, **k):
     if not has_sym([a, b]):
         return _np.array_equal(a, b)
@@ -961,6 +970,7 @@ SHIMS = dict(
     minimum=minimum,
     bincount=bincount,
     allclose=allclose,
+    isclose=isclose,
     array_equal=array_equal,
     where=where,
     atleast_1d=atleast_1d,
